@@ -56,6 +56,10 @@ pub enum Step {
     CloseMidFrame,
     /// fail the write that crosses this absolute byte offset of the request stream
     FailWriteAt(usize),
+    /// the caller of operation `i` stops waiting: its task is aborted, the operation's future (or the
+    /// stream) is dropped where it stands — an outer `timeout()`, a `select!` arm, a task abort.  No model
+    /// event: for the model this is a client that never polls again.
+    CancelOp(usize),
 }
 
 pub fn kind_text(k: &OpKind) -> String {
@@ -146,6 +150,7 @@ pub fn run_script(steps: &[Step]) -> Outcome {
         let mut main_handle: Option<Ldap> = Some(ldap);
         let issued = std::rc::Rc::new(std::cell::Cell::new(0usize));
         let mut cmd_tx: Vec<Option<mpsc::UnboundedSender<Cmd>>> = vec![];
+        let mut aborts: Vec<Option<tokio::task::AbortHandle>> = vec![];
         let mut tasks = tokio::task::JoinSet::new();
         let local = tokio::task::LocalSet::new();
         let mut tok: u64 = 100;
@@ -161,7 +166,7 @@ pub fn run_script(steps: &[Step]) -> Outcome {
                             let (tx, mut rx) = mpsc::unbounded_channel::<Cmd>();
                             cmd_tx.push(Some(tx));
                             let k2 = kind.clone();
-                            tasks.spawn_local(async move {
+                            let ah = tasks.spawn_local(async move {
                                 if let Some(t) = tmo_ms {
                                     l.with_timeout(Duration::from_millis(t));
                                 }
@@ -312,6 +317,7 @@ pub fn run_script(steps: &[Step]) -> Outcome {
                                     }
                                 }
                             });
+                            aborts.push(Some(ah));
                             // let the task run its synchronous prefix (alloc + enqueue)
                             tokio::task::yield_now().await;
                         }
@@ -398,6 +404,7 @@ pub fn run_script(steps: &[Step]) -> Outcome {
                             if let Some(Some(tx)) = cmd_tx.get(i) {
                                 let _ = tx.send(Cmd::Via);
                                 cmd_tx.push(None); // the new operation has an index but takes no commands
+                                aborts.push(None);
                                 tokio::task::yield_now().await;
                             }
                         }
@@ -428,6 +435,19 @@ pub fn run_script(steps: &[Step]) -> Outcome {
                             }
                         }
                         Step::FailWriteAt(n) => net.fail_write_at(Some(n)),
+                        Step::CancelOp(i) => {
+                            if let Some(Some(ah)) = aborts.get(i) {
+                                if !ah.is_finished() {
+                                    ah.abort();
+                                    verif_trace(format!("cli cancelled {}", i));
+                                }
+                            }
+                            if let Some(c) = cmd_tx.get_mut(i) {
+                                *c = None;
+                            }
+                            settle().await;
+                            while tasks.try_join_next().is_some() {}
+                        }
                     }
                 }
                 settle().await;
@@ -479,7 +499,7 @@ pub fn to_model_events(trace: &[String]) -> String {
             ("cli", "done") => out.push(format!("poll {} {}", w[2], w[3])),
             ("cli", "next") => out.push(format!("recv {} {} {}", w[2], w[3], w[4])),
             ("cli", "finish") => out.push(format!("finish {} {}", w[2], w[3])),
-            ("cli", "finished") | ("cli", "streamdropped") | ("cli", "nextcancelled") => {}
+            ("cli", "finished") | ("cli", "streamdropped") | ("cli", "nextcancelled") | ("cli", "cancelled") => {}
             ("drv", "scrub") => out.push(format!("drvscrub {}", w[2])),
             ("drv", "op") => {
                 // the arm's effects take place when the write has completed (`drv sent`), failed
